@@ -444,40 +444,82 @@ func (x *Exec) anchorsOf(ax *Term) []*Term {
 // stable.
 func filterQuantified(pc []*Term, goal *Term) []*Term {
 	goalHeaps := map[string]bool{}
-	collectArraySyms(goal, goalHeaps, map[*Term]bool{})
+	{
+		raw := map[string]bool{}
+		collectArraySyms(goal, raw, map[*Term]bool{})
+		for h := range raw {
+			goalHeaps[heapBaseName(h)] = true
+		}
+	}
 	var out []*Term
+	// keep weakens a hypothesis: an irrelevant quantified conjunct (or
+	// disjunct-internal conjunct, or consequent) is replaced by true. Only
+	// positions of positive polarity are touched, so the result is implied
+	// by the original fact; everything else is kept unchanged.
 	var keep func(f *Term) *Term
 	keep = func(f *Term) *Term {
 		if !hasQuantifier(f, map[*Term]bool{}) {
 			return f
 		}
-		if f.Op == "and" && f.QVars == nil {
-			var parts []*Term
-			for _, a := range f.Args {
-				if k := keep(a); k != nil {
-					parts = append(parts, k)
+		if f.QVars == nil {
+			switch f.Op {
+			case "and":
+				var parts []*Term
+				for _, a := range f.Args {
+					parts = append(parts, keep(a))
+				}
+				return And(parts...)
+			case "or":
+				var parts []*Term
+				for _, a := range f.Args {
+					parts = append(parts, keep(a))
+				}
+				return Or(parts...)
+			case "=>":
+				if len(f.Args) == 2 && !hasQuantifier(f.Args[0], map[*Term]bool{}) {
+					return Implies(f.Args[0], keep(f.Args[1]))
 				}
 			}
-			return And(parts...)
+			return f
+		}
+		if f.Op != "forall" {
+			return f
 		}
 		hs := map[string]bool{}
 		collectArraySyms(f, hs, map[*Term]bool{})
 		for h := range hs {
-			if goalHeaps[h] {
+			if goalHeaps[heapBaseName(h)] {
 				return f
 			}
 		}
 		if len(hs) == 0 {
 			return f
 		}
-		return nil
+		return tTrue
 	}
 	for _, f := range pc {
-		if k := keep(f); k != nil && !k.isTrue() {
+		if k := keep(f); !k.isTrue() {
 			out = append(out, k)
 		}
 	}
 	return out
+}
+
+// heapBaseName maps every version of a component heap (H$T$f@0, H_T_f_!12)
+// to one name.
+func heapBaseName(sym string) string {
+	if i := strings.IndexByte(sym, '@'); i >= 0 {
+		sym = sym[:i]
+	} else if i := strings.LastIndexByte(sym, '!'); i >= 0 {
+		sym = sym[:i]
+	}
+	b := []byte(sym)
+	for i, c := range b {
+		if !(c >= 'a' && c <= 'z' || c >= 'A' && c <= 'Z' || c >= '0' && c <= '9') {
+			b[i] = '_'
+		}
+	}
+	return strings.TrimRight(string(b), "_'")
 }
 
 func hasQuantifier(t *Term, seen map[*Term]bool) bool {
